@@ -13,8 +13,11 @@ entries of the map as this particular `range` happened to produce them"; theorem
 all permutations of it.  `sort.Strings` is modelled by insertion sort (the sorted permutation of
 a list of byte strings is unique, so the algorithm does not matter).
 
-Assumption (not modelled): group numbers in the name table satisfy |idx| < 2^62, so `idx * 2`
-does not wrap; they are produced by the matchers and are small.
+`GetMatch` mirrors Go's `int` arithmetic: `idx * 2` wraps around (`wrap64`), and the three guards
+`idx < 0 || sliceIndex < 0 || sliceIndex+1 >= len(s.indices)` are the code's (`sliceIndex` is even,
+so `sliceIndex + 1` cannot overflow).  The name tables are modelled as they are built:
+`regexNameTable` (`fastregex.createGroupNameTable` over `regexp.SubexpNames()`), `dissectNameTable`
+(`dissect.CompileEx`), `AlwaysMatch` has the empty table.
 -/
 namespace Rare.C16
 
@@ -114,12 +117,6 @@ def JB.writeInferred (j : JB) (key val : Bytes) : JB :=
 
 /-! ### sorted iteration over a map -/
 
-/-- byte-wise lexicographic `≤` (Go string comparison) -/
-def bytesLe : Bytes → Bytes → Bool
-  | [], _ => true
-  | _ :: _, [] => false
-  | a :: as, b :: bs => a < b || (a == b && bytesLe as bs)
-
 def insertSorted (x : Bytes) : List Bytes → List Bytes
   | [] => [x]
   | y :: ys => if bytesLe x y then x :: y :: ys else y :: insertSorted x ys
@@ -136,8 +133,8 @@ def mapGet {β : Type} (dflt : β) (entries : List (Bytes × β)) (name : Bytes)
 /-! ### SliceSpaceExpressionContext -/
 
 def getMatch (indices : List Int) (line : Bytes) (idx : Int) : Except String Bytes :=
-  let sliceIndex := idx * 2
-  if sliceIndex < 0 ∨ sliceIndex + 1 ≥ indices.length then .ok []
+  let sliceIndex := wrap64 (idx * 2)
+  if idx < 0 ∨ sliceIndex < 0 ∨ sliceIndex + 1 ≥ indices.length then .ok []
   else
     let start := indices.getD sliceIndex.toNat 0
     let stop := indices.getD (sliceIndex + 1).toNat 0
@@ -163,6 +160,41 @@ def json (named numbered : Bool) (order : List (Bytes × Int)) (indices : List I
   let jb ← if named then (sortNames (order.map (·.1))).foldlM (namedStep order indices line) jb else pure jb
   let jb ← if numbered then (List.range (indices.length / 2)).foldlM (numberedStep indices line) jb else pure jb
   pure jb.close.sb
+
+/-- The JSON branches of `GetKey`: `"."`, `"#"`, `".#"` / `"#."`; `none` = another kind of key. -/
+def getKeyJson (key : Bytes) (order : List (Bytes × Int)) (indices : List Int) (line : Bytes) :
+    Option (Except String Bytes) :=
+  if key = [0x2e] then some (json true false order indices line)
+  else if key = [0x23] then some (json false true order indices line)
+  else if key = [0x2e, 0x23] ∨ key = [0x23, 0x2e] then some (json true true order indices line)
+  else none
+
+/-! ### how the name tables are built -/
+
+/-- `m[k] = v` on the entries of a Go map (kept in insertion order; theorems quantify over every
+permutation, i.e. every iteration order) -/
+def mapSet {β : Type} (m : List (Bytes × β)) (k : Bytes) (v : β) : List (Bytes × β) :=
+  if m.any (fun p => p.1 == k) then m.map (fun p => if p.1 == k then (k, v) else p) else m ++ [(k, v)]
+
+/-- `createGroupNameTable(re)`: `for idx, name := range re.SubexpNames() { if name != "" { ret[name] = idx } }`;
+`i` is the index of the head of the list. -/
+def regexTableGo (m : List (Bytes × Int)) : Nat → List Bytes → List (Bytes × Int)
+  | _, [] => m
+  | i, name :: r => regexTableGo (if name ≠ [] then mapSet m name (i : Int) else m) (i + 1) r
+
+def regexNameTable (subexpNames : List Bytes) : List (Bytes × Int) := regexTableGo [] 0 subexpNames
+
+/-- The `groupNames` part of `dissect.CompileEx`: tokens as `(keyName, skipped)` in pattern order;
+`ErrorKeyConflict` on a repeated name. -/
+def dissectTableGo (m : List (Bytes × Int)) (groupIndex : Nat) : List (Bytes × Bool) → Except String (List (Bytes × Int))
+  | [] => .ok m
+  | (name, skipped) :: r =>
+    if skipped then dissectTableGo m groupIndex r
+    else if m.any (fun p => p.1 == name) then .error "key conflict"
+    else dissectTableGo (mapSet m name ((groupIndex + 1 : Nat) : Int)) (groupIndex + 1) r
+
+def dissectNameTable (tokens : List (Bytes × Bool)) : Except String (List (Bytes × Int)) :=
+  dissectTableGo [] 0 tokens
 
 /-! ### cmd/expressions.go -/
 
